@@ -78,6 +78,20 @@ def run(chk):
         progs.append((cp.source(), None, "class"))
     for _ in range(40 if chk.thorough else 10):
         progs.append((scopegen.ScopeProgram(rng).reference(), None, "scope"))
+    # an object that the collector never sweeps itself (its class has qubit or @tracked fields) whose last reference sits in a
+    # garbage cycle: its destructor and its tracked record must not depend on when the cycle is wiped
+    for _ in range(60 if chk.thorough else 12):
+        fld = rng.choice(["@tracked public qubit q;", "public qubit q;", "@tracked public qubit[2] q;"])
+        dt = rng.choice(["public destructor() -> void { echo(\"Res destroyed \" + this.id); }", ""])
+        via = rng.choice(["a.r = new Res(1);", "a.rs = {new Res(1), new Res(2)};", "b.r = new Res(3); a.r = b.r;"])
+        k = rng.randrange(2, 4)
+        ring = " ".join("n%d.peer = n%d;" % (i, (i + 1) % k) for i in range(k))
+        src = ("class Res { public int id; %s public constructor(int id) -> Res { this.id = id; return this; } %s }\n"
+               "class Node { public Node peer; public Res r; public Res[] rs; public constructor() -> Node { this.peer = null; this.r = null; return this; } }\n"
+               "function makeGarbage() -> void { %s %s Node a = n0; Node b = n1; %s }\n"
+               "function main() -> void { makeGarbage(); echo(\"dropped\"); for (int i = 0; i < %d; i = i + 1) { Node t = new Node(); } echo(\"end\"); }"
+               % (fld, dt, " ".join("Node n%d = new Node();" % i for i in range(k)), ring, via, rng.choice([3, 20])))
+        progs.append((src, None, "cycle-owned-tracked"))
     for _fn, o in load_corpus("C11"):
         progs.append((o["source"], None, "corpus"))
     nsched = 8 if chk.thorough else 4
